@@ -321,7 +321,7 @@ package wal
 //@ func wal.readAtIndex(t, index) (entry, err)
 //@ trusted
 //@ ensures err == nil ==> entry != nil && entry.Offset == index
-//@ preserves fields(wal), fields(readWriteSegment), fields(reader), fields(forwardReader), fields(reverseReader), fields(github.com/oxia-db/oxia/server.followerController), fields(github.com/oxia-db/oxia/server.leaderController), fields(proto.LogEntryValue)
+//@ preserves fields(wal), fields(readWriteSegment), fields(reader), fields(forwardReader), fields(reverseReader), fields(github.com/oxia-db/oxia/server.followerController), fields(github.com/oxia-db/oxia/server.leaderController), fields(github.com/oxia-db/oxia/server.followerCursor), fields(proto.LogEntryValue)
 //@ note trusted: this package does not import the server package and cannot reach the controllers' state
 //@ note trusted: the payload stored at offset i is the marshalled LogEntry whose Offset field is i (appendAsync0 is the only writer and stores entry.Offset at that index); protobuf round trip and the RefCount-wrapped read-only segments are not verified
 
@@ -343,7 +343,7 @@ package wal
 //@ ensures err == nil ==> entry != nil && entry.Offset == old(r.reader.nextOffset) && r.reader.nextOffset == old(r.reader.nextOffset) + 1
 //@ ensures r.reader.wal == old(r.reader.wal) && r.reader.closed == old(r.reader.closed)
 //@ ensures err != nil ==> r.reader.nextOffset == old(r.reader.nextOffset)
-//@ preserves fields(wal), fields(github.com/oxia-db/oxia/server.followerController), fields(github.com/oxia-db/oxia/server.leaderController), fields(proto.LogEntryValue)
+//@ preserves fields(wal), fields(github.com/oxia-db/oxia/server.followerController), fields(github.com/oxia-db/oxia/server.leaderController), fields(github.com/oxia-db/oxia/server.followerCursor), fields(proto.LogEntryValue)
 
 //@ func forwardReader.HasNext
 //@ property C09
@@ -362,7 +362,7 @@ package wal
 //@ ensures typeIs(recv, *forwardReader) && err == nil ==> entry != nil && entry.Offset == old(as(recv, *forwardReader).reader.nextOffset) && as(recv, *forwardReader).reader.nextOffset == old(as(recv, *forwardReader).reader.nextOffset) + 1
 //@ ensures typeIs(recv, *forwardReader) ==> as(recv, *forwardReader).reader.wal == old(as(recv, *forwardReader).reader.wal) && as(recv, *forwardReader).reader.closed == old(as(recv, *forwardReader).reader.closed)
 //@ ensures typeIs(recv, *forwardReader) && err != nil ==> as(recv, *forwardReader).reader.nextOffset == old(as(recv, *forwardReader).reader.nextOffset)
-//@ preserves fields(wal), fields(github.com/oxia-db/oxia/server.followerController), fields(github.com/oxia-db/oxia/server.leaderController), fields(proto.LogEntryValue)
+//@ preserves fields(wal), fields(github.com/oxia-db/oxia/server.followerController), fields(github.com/oxia-db/oxia/server.leaderController), fields(github.com/oxia-db/oxia/server.followerCursor), fields(proto.LogEntryValue)
 
 //@ func Reader.Close(recv) (err)
 //@ trusted
@@ -381,7 +381,7 @@ package wal
 //@ requires r.reader.wal != nil && r.reader.nextOffset > -9223372036854775808
 //@ ensures err == nil ==> entry != nil && entry.Offset == old(r.reader.nextOffset) && r.reader.nextOffset == old(r.reader.nextOffset) - 1
 //@ ensures err != nil ==> r.reader.nextOffset == old(r.reader.nextOffset)
-//@ preserves fields(wal), fields(github.com/oxia-db/oxia/server.followerController), fields(github.com/oxia-db/oxia/server.leaderController), fields(proto.LogEntryValue)
+//@ preserves fields(wal), fields(github.com/oxia-db/oxia/server.followerController), fields(github.com/oxia-db/oxia/server.leaderController), fields(github.com/oxia-db/oxia/server.followerCursor), fields(proto.LogEntryValue)
 
 //@ func reverseReader.HasNext
 //@ property C09
